@@ -174,4 +174,18 @@ theorem reenc_deregistrationRequest (acc sw ksi : Nat) (mi : Val) (ha : acc < 4)
   rw [← nasCodec_eq, hpe] at hrt'
   exact ⟨pm, hrt', hpe⟩
 
+set_option maxRecDepth 1000000 in
+/-- the hypotheses are satisfiable: the three constructors do encode with the emulator's arguments (PSI 5, request type 1, DNN
+    "internet", S-NSSAI 1 / 010203; a 13-octet SUCI) -/
+example :
+    (match Ctor.encodeWith layout_ULNASTransport (Ctor.ulEstablishment (UInt8.ofNat 5) (UInt8.ofNat 1) internet
+        ((some (1, (1 : UInt8), (2 : UInt8), (3 : UInt8))).map fun x => ⟨UInt8.ofNat x.1, [x.2.1, x.2.2.1, x.2.2.2]⟩)),
+      Ctor.encodeWith layout_ULNASTransport (Ctor.ulReleaseComplete (UInt8.ofNat 5) (UInt8.ofNat 1) internet
+        ((some (1, (1 : UInt8), (2 : UInt8), (3 : UInt8))).map fun x => ⟨UInt8.ofNat x.1, [x.2.1, x.2.2.1, x.2.2.2]⟩)),
+      Ctor.encodeWith layout_DeregistrationRequestUEOriginatingDeregistration
+        (Ctor.deregistrationRequest (UInt8.ofNat 1) (UInt8.ofNat 0) (UInt8.ofNat 4)
+          (suciVal [0x01, 0x00, 0xf1, 0x10, 0xf0, 0xff, 0x00, 0x00, 0x00, 0x00, 0x00, 0x00, 0x10])) with
+    | .ok _, .ok _, .ok _ => true
+    | _, _, _ => false) = true := by decide +kernel
+
 end Stgutg.Proofs.EmulatorLifeReenc
